@@ -349,29 +349,40 @@ func (x *c15DurInst) announce(off int64) (released int, err error) {
 	x.bl.announce(off)
 	released = before - x.db.eng.VerifC15WaitQLen()
 	x.trace = append(x.trace, fmt.Sprintf("op %d: binlog announces durable offset %d, engine releases %d parked caller(s)", x.opIdx, off, released))
+	// the released callers answer asynchronously: wait until all of them have, then hand the answers out in
+	// the order the requests were issued (one announcement releases them together; a fixed order keeps
+	// traces and outcome keys identical between runs)
 	t0 := time.Now()
-	got := 0
-	for i := 0; got < released; i++ {
+	answers := make(map[*c15DurPending]c15DurAnswer, released)
+	for i := 0; len(answers) < released; i++ {
 		progress := false
-		for j := 0; j < len(x.parked); j++ {
+		for _, p := range x.parked {
+			if _, have := answers[p]; have {
+				continue
+			}
 			select {
-			case a := <-x.parked[j].done:
-				p := x.parked[j]
-				x.parked = append(x.parked[:j], x.parked[j+1:]...)
-				j--
-				x.handOut(p, a)
-				got++
+			case a := <-p.done:
+				answers[p] = a
 				progress = true
 			default:
 			}
 		}
 		if !progress {
 			if time.Since(t0) > c15DurPollLimit {
-				return released, fmt.Errorf("engine released %d parked callers, only %d answered", released, got)
+				return released, fmt.Errorf("engine released %d parked callers, only %d answered", released, len(answers))
 			}
 			c15DurPause(i)
 		}
 	}
+	var still []*c15DurPending
+	for _, p := range x.parked {
+		if a, ok := answers[p]; ok {
+			x.handOut(p, a)
+		} else {
+			still = append(still, p)
+		}
+	}
+	x.parked = still
 	return released, nil
 }
 
